@@ -17,7 +17,8 @@ RULE = (
     "inner renders (synthetic text / SGR text / ECH+CUF graphics fills / cursor-forward-only, and real block, "
     "kitty, iterm2 renders) x every alignment pair x fill in {' ', other, ''} x absolute/zero/negative minimum "
     "sizes x exact margins 0..6 x terminal sizes, through all four surfaces (Padding.pad, Renderable.render, "
-    "RenderIterator frames, format()/_format_render); plus the complete grid render 1..4 x minimum 1..7 x 9 "
+    "RenderIterator frames, format()/_format_render, and old-API draw() of stills and animations judged by the "
+    "final screen of the byte stream); plus the complete grid render 1..4 x minimum 1..7 x 9 "
     "alignments x 3 fills; non-trivial = padded output executed and compared with the inner render executed "
     "alone; distinct = (surface, kind, render size, padding descriptor) tuples"
 )
@@ -40,21 +41,31 @@ def plan(tier, seed):
     return shards
 
 
-def check_padded(padded, inner, rsize, dims, fill, personality, label, slack=(2, 3)):
-    """Executes both; returns list of errors."""
+def _img_view(vt, cell):
+    """An image cell by the pixels it shows (not by the image number of this terminal)."""
+    if cell[0] == "\x00img":
+        im = vt.images.get(cell[1])
+        return ("img", im[2] if im else None, cell[2])
+    return cell[:3]
+
+
+def check_padded(padded, inner, rsize, dims, fill, personality, label, slack=(2, 3), stream=False):
+    """Executes both; returns list of errors.  stream=True: *padded* is what a draw() call
+    wrote to the terminal (raw line discipline already applied, possibly several frames
+    drawn over each other, a final newline): the final screen is what is judged."""
     W, H = rsize
     left, top, right, bottom = dims
     PW, PH = left + W + right, top + H + bottom
-    r0, c0 = slack[0] % 3, slack[1] % 4
+    r0, c0 = slack[0] % 3, (0 if stream else slack[1] % 4)
     rows, cols = r0 + PH + 2, c0 + PW + 2
-    a = VTerm(rows, cols, personality, cooked=True, margin=c0)
+    a = VTerm(rows, cols, personality, cooked=not stream, margin=c0)
     a.r, a.c = r0, c0
     a.feed(padded)
     b = VTerm(rows, cols, personality, cooked=True, margin=c0 + left)
     b.r, b.c = r0 + top, c0 + left
     b.feed(inner)
     errs = []
-    if padded.count("\n") != PH - 1 or padded.endswith("\n"):
+    if not stream and (padded.count("\n") != PH - 1 or padded.endswith("\n")):
         errs.append(("newlines", padded.count("\n"), PH - 1))
     inner_rect = {(r, c) for r in range(r0 + top, r0 + top + H) for c in range(c0 + left, c0 + left + W)}
     box = {(r, c) for r in range(r0, r0 + PH) for c in range(c0, c0 + PW)}
@@ -63,7 +74,9 @@ def check_padded(padded, inner, rsize, dims, fill, personality, label, slack=(2,
         for c in range(cols):
             ca = ra[c]
             if (r, c) in inner_rect:
-                if ca != rb[c]:
+                # (what lies underneath an image cell differs when frames are drawn over
+                # each other; the image and its offset are what counts)
+                if (_img_view(a, ca) != _img_view(b, rb[c])) if stream else (ca != rb[c]):
                     errs.append(("inner-differs", (r - r0, c - c0), ca, rb[c]))
                     break
             elif (r, c) in box:
@@ -80,15 +93,21 @@ def check_padded(padded, inner, rsize, dims, fill, personality, label, slack=(2,
         else:
             continue
         break
-    if (a.touched & inner_rect) != (b.touched & inner_rect):
+    if not stream and (a.touched & inner_rect) != (b.touched & inner_rect):
         errs.append(("inner-touched-differs",))
-    if a.placement_keys() != b.placement_keys():
+    if stream:
+        # images on screen at the end: position, extent and pixels (z-index aside)
+        pa = sorted({(p.row, p.col, p.c, p.r, p.digest) for p in a.placements})
+        pb = sorted({(p.row, p.col, p.c, p.r, p.digest) for p in b.placements})
+        if pa != pb:
+            errs.append(("placements-differ", pa[:2], pb[:2]))
+    elif a.placement_keys() != b.placement_keys():
         errs.append(("placements-differ", a.placement_keys()[:2], b.placement_keys()[:2]))
     ia = sorted((k, v[:3]) for k, v in a.images.items())
     ib = sorted((k, v[:3]) for k, v in b.images.items())
-    if ia != ib:
+    if ia != ib and not stream:
         errs.append(("images-differ",))
-    exp = (r0 + PH - 1, min(c0 + PW, cols - 1))
+    exp = (r0 + PH, 0) if stream else (r0 + PH - 1, min(c0 + PW, cols - 1))
     if (a.r, a.c) != exp:
         errs.append(("cursor", (a.r, a.c), exp))
     if a.scrolls or a.autowraps:
@@ -334,6 +353,106 @@ def run_format_history(case, env, res):
     res.sample(case)
 
 
+def run_draw(case, env, res):
+    """draw() of the old API (stills and animations) with padding: what the call leaves on
+    the terminal must be the un-padded render of the (last) frame at the aligned offset
+    inside a blank box of exactly the padded size, with nothing outside it changed."""
+    import os
+    import sys
+    import tempfile
+
+    from .. import drawlib as dl
+    from ..common import make_anim_file
+    from ..lib import set_terminal, style_classes
+
+    rnd = random.Random(case["img_seed"])
+    personality = vt_personality(env.persona_name)
+    cols, rows = case["term"]
+    set_terminal(env, cols, rows, 4, 8)
+    cls = style_classes()[case["kind"]]
+    n = case["frames"]
+    path = None
+    if n > 1:
+        fd, path = tempfile.mkstemp(suffix=".gif", dir="/var/tmp")
+        os.close(fd)
+        make_anim_file(rnd, path, case["src"][0], case["src"][1], n, "GIF")
+        img, ref = cls.from_file(path, **case["size_kw"]), cls.from_file(path, **case["size_kw"])
+    else:
+        pil = make_image(rnd, case["src"][0], case["src"][1], "RGBA")
+        img, ref = cls(pil, **case["size_kw"]), cls(pil, **case["size_kw"])
+    try:
+        W, H = ref.rendered_size
+        pw, ph = case["fmt_dims"]
+        term = (cols, rows)
+        PW, PH = model.aligned_box((W, H), (pw, ph), term)
+        if PW > cols or PH + 3 > rows:
+            res.count("draws that would not fit without scrolling (skipped)")
+            return
+        env.take()
+        tap = dl.TapOut(sys.stdout, mark=False)
+        saved = sys.stdout
+        sys.stdout = tap
+        try:
+            with dl.patched_time(dl.VirtualTime()):
+                img.draw(case["fmt_h"], pw, case["fmt_v"], ph, animate=case["animate"], repeat=case["repeat"], cached=case["cached"], **(case.get("style_kw") or {}))
+        finally:
+            sys.stdout = saved
+        data = env.take().decode("utf-8", "replace")
+        animated = n > 1 and case["animate"]
+        if animated:
+            ref.seek(n - 1)
+        plain = format(ref, "1.1" + case.get("style", ""))
+        hal = {"<": 0, "|": 1, ">": 2, None: 1}[case["fmt_h"]]
+        val = {"^": 0, "-": 1, "_": 2, None: 1}[case["fmt_v"]]
+        best = None
+        for l in range(PW - W + 1):
+            r_ = PW - W - l
+            if not model.side_ok(hal, l, r_):
+                continue
+            for t in range(PH - H + 1):
+                b_ = PH - H - t
+                if not model.side_ok(val, t, b_):
+                    continue
+                e = check_padded(data, plain, (W, H), (l, t, r_, b_), " ", personality, "draw", (case["r0"], 0), stream=True)
+                if best is None or len(e) < len(best):
+                    best = e
+                if not e:
+                    break
+            if best == []:
+                break
+        res.count("padded outputs executed")
+        res.count("surface draw() (%s)" % ("animation" if animated else "still"))
+        res.case(("draw", case["kind"], W, H, pw, ph, case["fmt_h"], case["fmt_v"], n, term))
+        if best:
+            res.violation("C05:draw:%s" % best[0][0], "%s %s draw(%r, %r, %r, %r) of a %dx%d render (%d frame(s), repeat %d) on terminal %s: %r" % (case["kind"], "animated" if animated else "still", case["fmt_h"], pw, case["fmt_v"], ph, W, H, n, case["repeat"], term, best[:3]), case)
+    finally:
+        img.close()
+        ref.close()
+        if path:
+            os.unlink(path)
+
+
+def gen_draw(rnd, persona):
+    pers = vt_personality(persona)
+    kind = rnd.choice(["block", "block", "kitty", "iterm2"])
+    frames = rnd.choice([1, 2, 3, 4])
+    if kind == "kitty" and pers not in ("kitty", "konsole"):
+        frames = 1  # kitty animations need a terminal that can clear frames
+    h = rnd.choice([None, "<", "|", ">"])
+    v = rnd.choice([None, "^", "-", "_"])
+    case = dict(
+        surface="draw", kind=kind, frames=frames, term=[rnd.randint(24, 60), rnd.randint(14, 30)], src=[rnd.randint(2, 12), rnd.randint(2, 12)], img_seed=rnd.getrandbits(32),
+        size_kw=dict(width=rnd.randint(1, 8), height=rnd.randint(1, 5)) if rnd.random() < 0.7 else dict(width=rnd.randint(1, 8)),
+        fmt_h=h, fmt_v=v, fmt_dims=[rnd.choice([0, rnd.randint(1, 24), 3]), rnd.choice([-2, rnd.randint(1, 10), 1, 2, 0, -rnd.randint(3, 20)])],
+        animate=rnd.random() < 0.85, repeat=rnd.choice([1, 1, 2]), cached=rnd.choice([True, False]), r0=rnd.randint(0, 2),
+    )
+    if kind != "block" and rnd.random() < 0.5:
+        m = rnd.choice(["L", "W"])
+        case["style"] = "+" + m
+        case["style_kw"] = dict(method={"L": "lines", "W": "whole"}[m])
+    return case
+
+
 def gen_format_history(rnd):
     def one_spec():
         h = rnd.choice([None, "<", "|", ">"])
@@ -367,6 +486,8 @@ def gen_format_history(rnd):
 def gen(rnd, persona):
     if rnd.random() < 0.12:
         return gen_format_history(rnd)
+    if rnd.random() < 0.1:
+        return gen_draw(rnd, persona)
     surface = rnd.choice(["pad", "pad", "render", "iterator", "format"])
     term = [rnd.randint(1, 60), rnd.randint(1, 30)]
     W, H = rnd.randint(1, 12), rnd.randint(1, 8)
@@ -431,6 +552,8 @@ def run_shard(shard, env):
         try:
             if case["surface"] == "format-history":
                 run_format_history(case, env, res)
+            elif case["surface"] == "draw":
+                run_draw(case, env, res)
             else:
                 run_case(case, env, res)
         except Exception as e:
